@@ -257,7 +257,7 @@ def run_bytes(res, tier, seed, i):
 
     @hypothesis.seed(env.subseed(seed, ID, "bytes", i))
     @settings(max_examples=n, deadline=None, database=None, suppress_health_check=list(hypothesis.HealthCheck), phases=[hypothesis.Phase.generate])
-    @given(block_s(st.sampled_from([1, 1, 2, 3])), st.randoms(use_true_random=False), st.sampled_from([0, 63, 64, 100, 127, 128, 200]))
+    @given(block_s(st.sampled_from([1, 1, 2, 3])), st.randoms(use_true_random=True), st.sampled_from([0, 63, 64, 100, 127, 128, 200]))
     def p(blk, rnd, special_h):
         if special_h and rnd.random() < 0.5:
             blk.height = special_h
@@ -397,7 +397,7 @@ def run_ids(res, tier, seed):
 
     @hypothesis.seed(env.subseed(seed, ID, "ids"))
     @settings(max_examples=n, deadline=None, database=None, suppress_health_check=list(hypothesis.HealthCheck), phases=[hypothesis.Phase.generate])
-    @given(st.randoms(use_true_random=False), st.sampled_from(chainexec.CFGS[:3]))
+    @given(st.randoms(use_true_random=True), st.sampled_from(chainexec.CFGS[:3]))
     def p(rnd, cfg):
         case = chainexec.gen_case(rnd, cfg, 8, 0.0, ["C01"], p_tx=0.8)
         r = chainexec.Run(case, ("C07",))
